@@ -123,7 +123,7 @@ func account(c *vlib.Ctx, r *recorder) {
 					eofs++
 				}
 			}
-		case "Block", "Hol", "Backlog", "Storm":
+		case "Block", "Hol", "Backlog", "Storm", "Heart":
 			blocks++
 		}
 	}
